@@ -18,17 +18,18 @@ VARIABLES
   sval,      \* an answer to the start request is waiting in its channel (not yet seen by the task)
   clr,       \* the Clear request: none | out | answered | dropped
   woken,     \* the timer task has been woken since its last poll (or was never polled)
-  outs       \* per timer: sequence of everything it sent / reported, in order
+  outs,      \* per timer: sequence of everything it sent / reported, in order
+  wrong      \* the answer waiting for timer i names another timer (a mixed-up shell)
 
-tvars == <<phase, handle, start, sval, clr, woken, outs>>
+tvars == <<phase, handle, start, sval, clr, woken, outs, wrong>>
 
 Init ==
   /\ phase = [i \in T |-> "built"] /\ handle = [i \in T |-> "held"]
   /\ start = [i \in T |-> "none"] /\ sval = [i \in T |-> FALSE]
   /\ clr = [i \in T |-> "none"] /\ woken = [i \in T |-> TRUE]
-  /\ outs = [i \in T |-> <<>>]
+  /\ outs = [i \in T |-> <<>>] /\ wrong = [i \in T |-> FALSE]
 
-Final(i) == phase[i] \in {"completed", "cleared", "abandoned"}
+Final(i) == phase[i] \in {"completed", "cleared", "abandoned", "broken"}
 
 \* what one poll of timer i's task does, as [phase, start, clr, out (sequence of new outputs), sval]
 PollResult(i) ==
@@ -42,7 +43,10 @@ PollResult(i) ==
       \* select_biased: the response branch first, then the handle
       P2 == IF P1.phase = "waiting"
             THEN IF P1.sval
-                 THEN [P1 EXCEPT !.phase = "completed", !.sval = FALSE, !.out = @ \o <<"ev_completed">>]
+                 \* (an answer that names another timer is a developer error: the task stops with a panic --
+                 \* it never reports an outcome on the strength of somebody else's answer)
+                 THEN IF wrong[i] THEN [P1 EXCEPT !.phase = "broken", !.sval = FALSE, !.out = @ \o <<"panic">>]
+                      ELSE [P1 EXCEPT !.phase = "completed", !.sval = FALSE, !.out = @ \o <<"ev_completed">>]
                  ELSE IF handle[i] = "cleared"
                       THEN [P1 EXCEPT !.phase = "clearSent", !.clr = "out", !.out = @ \o <<"eff_clear">>]
                       ELSE IF P1.start = "dropped" /\ handle[i] = "dropped"
@@ -67,7 +71,7 @@ Poll(i) ==
           /\ outs' = [outs EXCEPT ![i] = @ \o r.out]
      ELSE UNCHANGED <<phase, start, clr, sval, outs>>
   /\ woken' = [woken EXCEPT ![i] = FALSE]
-  /\ UNCHANGED handle
+  /\ UNCHANGED <<handle, wrong>>
 
 NewOutputs(i) == IF woken[i] /\ ~Final(i) THEN PollResult(i).out ELSE <<>>
 
@@ -80,25 +84,34 @@ ShellFires(i) ==
           /\ sval' = [sval EXCEPT ![i] = phase[i] \in {"waiting", "clearSent"}]
           /\ woken' = [woken EXCEPT ![i] = TRUE]
      ELSE UNCHANGED <<start, sval, woken>>
+  /\ UNCHANGED <<phase, handle, clr, outs, wrong>>
+
+\* ... with an answer that carries another timer's id (only the first answer counts, as above)
+ShellFiresWrong(i) ==
+  /\ start[i] = "out"
+  /\ start' = [start EXCEPT ![i] = "answered"]
+  /\ sval' = [sval EXCEPT ![i] = phase[i] \in {"waiting", "clearSent"}]
+  /\ woken' = [woken EXCEPT ![i] = TRUE]
+  /\ wrong' = [wrong EXCEPT ![i] = TRUE]
   /\ UNCHANGED <<phase, handle, clr, outs>>
 
 AppClears(i) ==
   /\ handle[i] = "held"
   /\ handle' = [handle EXCEPT ![i] = "cleared"]
   /\ woken' = [woken EXCEPT ![i] = TRUE]
-  /\ UNCHANGED <<phase, start, sval, clr, outs>>
+  /\ UNCHANGED <<phase, start, sval, clr, outs, wrong>>
 
 DropHandle(i) ==
   /\ handle[i] = "held"
   /\ handle' = [handle EXCEPT ![i] = "dropped"]
   /\ woken' = [woken EXCEPT ![i] = TRUE]
-  /\ UNCHANGED <<phase, start, sval, clr, outs>>
+  /\ UNCHANGED <<phase, start, sval, clr, outs, wrong>>
 
 ShellDropsStart(i) ==
   /\ start[i] = "out"
   /\ start' = [start EXCEPT ![i] = "dropped"]
   /\ woken' = [woken EXCEPT ![i] = TRUE]
-  /\ UNCHANGED <<phase, handle, sval, clr, outs>>
+  /\ UNCHANGED <<phase, handle, sval, clr, outs, wrong>>
 
 AnswerClearResult(i) == IF clr[i] = "out" THEN "ok" ELSE "never"
 ShellAnswersClear(i) ==
@@ -106,15 +119,15 @@ ShellAnswersClear(i) ==
   /\ IF clr[i] = "out"
      THEN clr' = [clr EXCEPT ![i] = "answered"] /\ woken' = [woken EXCEPT ![i] = TRUE]
      ELSE UNCHANGED <<clr, woken>>
-  /\ UNCHANGED <<phase, handle, start, sval, outs>>
+  /\ UNCHANGED <<phase, handle, start, sval, outs, wrong>>
 
 ShellDropsClear(i) ==
   /\ clr[i] = "out"
   /\ clr' = [clr EXCEPT ![i] = "dropped"]
   /\ woken' = [woken EXCEPT ![i] = TRUE]
-  /\ UNCHANGED <<phase, handle, start, sval, outs>>
+  /\ UNCHANGED <<phase, handle, start, sval, outs, wrong>>
 
-Next == \E i \in T : \/ Poll(i) \/ ShellFires(i) \/ AppClears(i) \/ DropHandle(i) \/ ShellDropsStart(i)
+Next == \E i \in T : \/ Poll(i) \/ ShellFires(i) \/ ShellFiresWrong(i) \/ AppClears(i) \/ DropHandle(i) \/ ShellDropsStart(i)
                       \/ ShellAnswersClear(i) \/ ShellDropsClear(i)
 
 Spec == Init /\ [][Next]_tvars
@@ -134,7 +147,7 @@ ExactlyOneClearRequest ==
                /\ (Count(outs[i], "ev_cleared") = 1 /\ Count(outs[i], "eff_start") = 1)
                      => (Count(outs[i], "eff_clear") = 1 /\ clr[i] = "answered")
 DropHandleNeverCancels ==
-  \A i \in T : (handle[i] = "dropped" /\ Final(i)) => phase[i] \in {"completed", "abandoned"}
+  \A i \in T : (handle[i] = "dropped" /\ Final(i)) => phase[i] \in {"completed", "abandoned", "broken"}
 AbandonedOnlyIfDropped ==
   \A i \in T : phase[i] = "abandoned" => (clr[i] = "dropped" \/ (start[i] = "dropped" /\ handle[i] = "dropped"))
 NothingAfterOutcome ==
